@@ -5,8 +5,14 @@ import json, os, subprocess, sys, time
 here = os.path.dirname(os.path.abspath(__file__))
 tier = "quick"
 args = sys.argv[1:]
-if args[:1] == ["--tier"]:
-    tier = args[1]; args = args[2:]
+scratch = False
+while args and args[0].startswith("--"):
+    if args[0] == "--tier":
+        tier = args[1]; args = args[2:]
+    elif args[0] == "--scratch":   # run against a scratch worktree via BATCHIE_REPO instead of patching /repo
+        scratch = True; args = args[1:]
+    else:
+        break
 ids = args or sorted(os.listdir(os.path.join(here, "seeded")))
 summary = {}
 for i in ids:
@@ -18,21 +24,31 @@ for i in ids:
     if not os.path.exists(os.path.join(here, "props", prop + ".json")):
         summary[i] = "no check for %s yet" % prop
         continue
-    st = subprocess.run(["git", "-C", "/repo", "status", "--porcelain", "--untracked-files=no"], capture_output=True, text=True).stdout.strip()
+    env = dict(os.environ)
+    target = "/repo"
+    if scratch:
+        target = "/tmp/seedrun_%s" % i
+        subprocess.run(["git", "-C", "/repo", "worktree", "remove", "--force", target], capture_output=True)
+        subprocess.run(["git", "-C", "/repo", "worktree", "add", "--detach", target, "HEAD"], check=True, capture_output=True)
+        env["BATCHIE_REPO"] = target
+    st = subprocess.run(["git", "-C", target, "status", "--porcelain", "--untracked-files=no"], capture_output=True, text=True).stdout.strip()
     if st:
         print("refusing: /repo has local modifications:\n" + st); sys.exit(2)
-    r = subprocess.run(["git", "-C", "/repo", "apply", os.path.join(d, "patch.diff")], capture_output=True, text=True)
+    r = subprocess.run(["git", "-C", target, "apply", os.path.join(d, "patch.diff")], capture_output=True, text=True)
     if r.returncode != 0:
         summary[i] = "patch does not apply: " + r.stderr[:200]
         continue
     t0 = time.time()
     try:
-        p = subprocess.run([os.path.join(here, "check"), prop, "--tier", tier], capture_output=True, text=True, timeout=3600)
+        p = subprocess.run([os.path.join(here, "check"), prop, "--tier", tier], capture_output=True, text=True, timeout=3600, env=env)
         out, rc = p.stdout + p.stderr, p.returncode
     except subprocess.TimeoutExpired:
         out, rc = "timeout", 124
     finally:
-        subprocess.run(["git", "-C", "/repo", "checkout", "--", "."], check=True)
+        if scratch:
+            subprocess.run(["git", "-C", "/repo", "worktree", "remove", "--force", target], capture_output=True)
+        else:
+            subprocess.run(["git", "-C", "/repo", "checkout", "--", "."], check=True)
     vio = [l for l in out.splitlines() if l.startswith("VIOLATION")]
     res = {"property": prop, "tier": tier, "exit": rc, "violation_line": vio[-1] if vio else None, "wall_s": round(time.time() - t0, 1),
            "caught": rc == 1 and bool(vio), "concrete_replay": bool(vio) and "no-failing-input-found" not in vio[-1], "tail": out[-600:]}
